@@ -357,6 +357,38 @@ fn run(case: &Value) -> Value {
                 Err(_) => json!({"r": "err", "parse_ok": parse_ok}),
             }
         }
+        // save -> save -> ... -> load on ONE path: after every save the file must hold exactly the formatter's
+        // output and load must return the registry that was saved
+        "registry_seq" => {
+            let dir = tempfile::tempdir().unwrap();
+            let path = dir.path().join("node_registry.json");
+            if let Some(pre) = case.get("pre") {
+                if !pre.is_null() {
+                    std::fs::write(&path, bytes_of(pre)).unwrap();      // whatever was there before (any content)
+                }
+            }
+            let mut out = Vec::new();
+            for st in case["steps"].as_array().unwrap() {
+                let text = String::from_utf8(bytes_of(st)).unwrap();
+                let mut reg = match NodeRegistry::from_json(&text) {
+                    Ok(r) => r,
+                    Err(_) => {
+                        out.push(json!({"parsed": false}));
+                        continue;
+                    }
+                };
+                reg.save_path = path.clone();
+                let fmt = serde_json::to_string(&reg).unwrap();
+                let saved = reg.save().is_ok();
+                let file = std::fs::read(&path).unwrap_or_default();
+                let loaded = NodeRegistry::load(&path);
+                let load_eq = loaded.as_ref().map(|l| serde_json::to_string(l).unwrap() == fmt).unwrap_or(false);
+                out.push(json!({"parsed": true, "saved": saved, "fmt": fmt.clone().into_bytes(), "file": file,
+                                "load_ok": loaded.is_ok(), "load_eq": load_eq,
+                                "load_err": loaded.err().map(|e| e.to_string())}));
+            }
+            json!({"steps": out, "path_len": path.to_string_lossy().len()})
+        }
         // ------------------------------------------------------------------ record bytes
         "header_from_record" => {
             let v = bytes_of(&case["bytes"]);
